@@ -241,6 +241,26 @@ func (e *engine) alwaysInlined(fn *ssa.Function) bool {
 	return true
 }
 
+// promises: some contract of fn has a postcondition (or ghost event) visible in the layer.
+func (e *engine) promises(fn *ssa.Function, layer string) bool {
+	var cts []*contract
+	if ct := e.w.db.Contracts[fn.String()]; ct != nil {
+		cts = append(cts, ct)
+	}
+	cts = append(cts, e.w.ifaceContractsFor(fn)...)
+	for _, ct := range cts {
+		if len(ct.Emits) > 0 || ct.Pure || ct.NoReturn || len(ct.Modifies) > 0 {
+			return true
+		}
+		for _, cl := range ct.clausesFor(layer) {
+			if cl.Kind == "ensures" {
+				return true
+			}
+		}
+	}
+	return false
+}
+
 // reachable: the module functions reachable from the named roots over static calls, interface dispatch within the
 // module, go statements, defers and closures.
 func (e *engine) reachable(roots []string) []*ssa.Function {
@@ -390,6 +410,11 @@ func (e *engine) check(prop string) *checkResult {
 				callees = []*ssa.Function{f} // statically called method covered by an interface contract
 			}
 			for _, cf := range callees {
+				// a callee whose contracts promise nothing in this layer contributes no assumption to its callers
+				// (its frame comes from the write analysis): it need not be re-verified as support
+				if !e.inScope(cf, prop) && !e.promises(cf, e.layerFor(fn, prop)) {
+					continue
+				}
 				if cf != fn {
 					usedBy[cf] = true
 				}
